@@ -212,12 +212,16 @@ class SortedLookupMapColumn(NoValueColumn):
     return row_ids, rel
 
   def _recalc_rec_method(self, rec, _table):
-    # Create dependencies on all the sort columns.
-    for col_id in self._sort_col_ids:
-      getattr(rec, col_id)
-
-    affected_keys = self._lookup_col._reset_sorted_versions(rec, self._sort_spec)
-    self._relation_tracker.invalidate_affected_keys(affected_keys)
+    try:
+      # Create dependencies on all the sort columns.
+      for col_id in self._sort_col_ids:
+        getattr(rec, col_id)
+    finally:
+      # Even if a sort column can't be read (e.g. it got removed, or its cell holds an error), the
+      # order may have changed, so the cached order must be reset and the lookups invalidated, so
+      # that formulas using this sort order get recalculated (and report the error if any).
+      affected_keys = self._lookup_col._reset_sorted_versions(rec, self._sort_spec)
+      self._relation_tracker.invalidate_affected_keys(affected_keys)
 
   def _get_keys(self, row_id):
     # For _LookupRelation to know which keys are affected when the given looked-up row_id changes.
